@@ -209,10 +209,17 @@ inline std::vector<double> position_candidates(const Axis &a, Level lv) {
 // e with (p + e) == q evaluated in double, exactly as the library evaluates position + extent
 inline bool extent_landing_on(double p, double q, double &e) {
     e = q - p;
-    for (int k = 0; k < 8; k++) {
-        double s = p + e;
-        if (s == q) return true;
-        e = std::nextafter(e, s < q ? INFINITY : -INFINITY);
+    if (p + e == q) return true;
+    // p + e is monotone in e: bisect between two extents that land below and above q
+    double w = std::fabs(q - std::nextafter(q, INFINITY)) + std::fabs(p - std::nextafter(p, INFINITY));
+    double lo = e - 2 * w, hi = e + 2 * w;
+    if (!(p + lo < q) || !(p + hi > q)) return false;
+    for (int k = 0; k < 200; k++) {
+        double mid = lo + (hi - lo) / 2;
+        double s = p + mid;
+        if (s == q) { e = mid; return true; }
+        if (s < q) lo = mid; else hi = mid;
+        if (mid == lo && mid == hi) break;
     }
     return false;
 }
@@ -289,6 +296,7 @@ struct Expect {
     bool throws;               // the statement demands an error and no data
     std::string why;           // "region empty" / "region reaches outside the stored data"
     int culprit;               // first axis whose S_d is empty / not inside the data (-1: none)
+    int empty_axis;            // first axis whose S_d is empty (-1: none)
     bool block_defined;        // every S_d is non-empty (then off/cnt describe S_1 x ... x S_r, possibly reaching beyond the data)
     bool block_complete;       // no S_d touches the end of the coordinates kept for an unbounded axis
     std::vector<size_t> off, cnt;
@@ -316,7 +324,7 @@ inline std::vector<size_t> ref_axis(const Axis &a, bool specified, double p, boo
 // pos / ext: the entries of the tag (ext empty = absent).  Entries beyond the rank are ignored, axes beyond the
 // entries are unspecified.
 inline Expect ref_block(const Built &arr, const std::vector<double> &pos, const std::vector<double> &ext, RangeMatch m) {
-    Expect x; x.throws = false; x.culprit = -1; x.block_defined = true; x.block_complete = true;
+    Expect x; x.throws = false; x.culprit = -1; x.empty_axis = -1; x.block_defined = true; x.block_complete = true;
     const size_t r = arr.axes.size();
     for (size_t d = 0; d < r; d++) {
         const Axis &a = arr.axes[d];
@@ -326,6 +334,7 @@ inline Expect ref_block(const Built &arr, const std::vector<double> &pos, const 
         std::vector<size_t> S = ref_axis(a, spec, spec ? pos[d] : 0.0, has_e, has_e ? ext[d] : 0.0, m);
         for (size_t i = 0; i + 1 < S.size(); i++) if (S[i] + 1 != S[i + 1]) { fprintf(stderr, "dagrid: reference region not contiguous\n"); abort(); }
         if (S.empty()) {
+            if (x.block_defined) x.empty_axis = static_cast<int>(d);
             x.block_defined = false;
             if (!x.throws) { x.throws = true; x.why = "region empty"; x.culprit = static_cast<int>(d); }
             x.off.push_back(0); x.cnt.push_back(0);
@@ -351,7 +360,7 @@ inline Expect ref_block(const Built &arr, const std::vector<double> &pos, const 
 
 // the whole array (untagged / indexed features of a Tag, untagged features of a MultiTag)
 inline Expect whole_array(const Built &arr) {
-    Expect x; x.throws = false; x.culprit = -1; x.block_defined = true; x.block_complete = true;
+    Expect x; x.throws = false; x.culprit = -1; x.empty_axis = -1; x.block_defined = true; x.block_complete = true;
     size_t total = 1;
     for (size_t d = 0; d < arr.shape.size(); d++) { x.off.push_back(0); x.cnt.push_back(arr.shape[d]); x.specified.push_back(false); total *= arr.shape[d]; }
     for (size_t k = 0; k < total; k++) x.values.push_back(arr.base + static_cast<double>(k));
@@ -441,13 +450,17 @@ struct InputInfo {
     bool has_ext;
     std::string entries_class;       // "fewer position entries than dimensions" / "as many ..." / "more ..."
     std::string mode;                // "Inclusive" / "Exclusive" / "default(...)"
+    RangeMatch match;                // the mode the expectation was computed for
+    std::string family;              // family of the entry point ("taggedData(Tag)", ...) used for the coarse signature class
     bool plain;                      // true: the expectation does not depend on position/extent (whole array, slice i)
     std::string plain_class, plain_assertion;
-    InputInfo() : arr(nullptr), has_ext(false), plain(false) {}
+    InputInfo() : arr(nullptr), has_ext(false), match(RangeMatch::Inclusive), plain(false) {}
 };
 inline std::string entries_class(size_t entries, size_t rank) {
     return entries < rank ? "fewer position entries than dimensions" : entries == rank ? "as many position entries as dimensions" : "more position entries than dimensions";
 }
+// fine class of the input on axis d (descriptor kind, position class, end class): used for coverage counting and in
+// the written-out instance
 inline std::string axis_input_class(const InputInfo &in, int d) {
     if (in.plain) return in.plain_class;
     if (d < 0) return "axis not identified";
@@ -456,6 +469,40 @@ inline std::string axis_input_class(const InputInfo &in, int d) {
     bool he = in.has_ext && static_cast<size_t>(d) < in.ext.size();
     return axis_kind_class(a) + " axis, position " + pclass(a, in.pos[d]) + ", " + eclass(a, in.pos[d], he, he ? in.ext[d] : 0.0);
 }
+// class of the input on axis d used in signatures: what the statement says about the region on that axis.  (Descriptor
+// kind, mode, entry point and the fine position classes are part of the written-out instance, not of the signature:
+// one behaviour of the library must not fan out into dozens of signatures.)
+inline std::string axis_region_class(const InputInfo &in, int d) {
+    if (in.plain) return in.plain_class;
+    if (d < 0) return "axis not identified";
+    const Axis &a = in.arr->axes[d];
+    if (static_cast<size_t>(d) >= in.pos.size()) return "unspecified " + axis_kind_class(a) + " axis";
+    bool he = in.has_ext && static_cast<size_t>(d) < in.ext.size();
+    double p = in.pos[d], e = he ? in.ext[d] : 0.0;
+    std::vector<size_t> S = ref_axis(a, true, p, he, e, in.match);
+    std::string o;
+    bool point = !he || e == 0.0;
+    if (point) {
+        o += he ? "point (zero extent)" : "point (no extent)";
+        if (S.empty()) o += ", no coordinate at or after the position";
+        else if (S.back() >= a.n) o += ", first coordinate at or after the position is beyond the data";
+        else o += p < a.c[0] ? ", position below the axis" : ", inside the data";
+    } else if (e < 0.0) o += "negative extent";
+    else {
+        if (S.empty()) o += "extent covers no coordinate";
+        else if (S.back() >= a.n) o += "region reaches beyond the stored data";
+        else {
+            o += "region inside the data";
+            if (p < a.c[0]) o += ", starts below the axis";
+            if (a.bounded && p + e > a.c[a.n - 1]) o += ", ends above the last coordinate";
+        }
+    }
+    return o;
+}
+inline std::string input_class(const InputInfo &in, int d) {
+    if (in.plain) return in.plain_class;
+    return axis_region_class(in, d);
+}
 inline std::string assertion_for(const InputInfo &in, int d, const Expect &x) {
     if (in.plain) return in.plain_assertion;
     if (d >= 0 && static_cast<size_t>(d) >= in.pos.size()) return "unspecified dimension returned in full";
@@ -463,7 +510,27 @@ inline std::string assertion_for(const InputInfo &in, int d, const Expect &x) {
     return "returned block is exactly the reference region";
 }
 inline std::string input_str(const InputInfo &in) {
-    return "position=" + vf::jvecd(in.pos) + " extent=" + (in.has_ext ? vf::jvecd(in.ext) : std::string("absent")) + " " + in.mode;
+    std::string o = "position=" + vf::jvecd(in.pos) + " extent=" + (in.has_ext ? vf::jvecd(in.ext) : std::string("absent")) + " " + in.mode;
+    if (!in.plain) {
+        o += " {";
+        for (size_t d = 0; d < in.arr->axes.size(); d++) o += (d ? "; " : "") + axis_input_class(in, static_cast<int>(d));
+        o += "}";
+    }
+    return o;
+}
+
+// Signature = prop | call site (family of entry points) | input class | assertion | deviation class.
+// Deviations on an axis the tag does not specify (or on an unidentified axis of a tag with fewer entries than
+// dimensions) form one coarse class per entry-point family: they are all the same behaviour of the padding of
+// unspecified dimensions, whatever the descriptor kind, the mode and the concrete entry point.
+inline std::string make_sig(const std::string &prop, const std::string &site, const InputInfo &in, int d, const std::string &assertion, const std::string &dev) {
+    const size_t rank = in.arr->axes.size();
+    if (!in.plain && in.pos.size() < rank && (d < 0 || static_cast<size_t>(d) >= in.pos.size())) {
+        if (d < 0) return prop + "|" + in.family + "|fewer position entries than dimensions; axis not identified|" + assertion + "|" + dev;
+        return prop + "|" + in.family + "|fewer position entries than dimensions|unspecified dimension returned in full|" + dev;
+    }
+    (void)site; // the concrete entry point is part of the written-out instance
+    return prop + "|" + in.family + "|" + input_class(in, d) + "|" + assertion + "|" + dev;
 }
 
 // first axis on which a returned (offset,count) differs from the expected block
@@ -489,11 +556,10 @@ inline bool is_oob(const std::string &exc) { return exc.find("OutOfBounds") != s
 // Compare the result of one retrieval with the reference.  `diag` (optional) is the output of getOffsetAndCount for the
 // same input, used only to identify the deviating axis when the retrieval raised although data was expected.
 // Returns true when the result agrees.
-inline bool check_retrieval(const std::string &prop, const std::string &site, const InputInfo &in, const Expect &x, const Got &g, const Goc *diag = nullptr) {
+typedef std::function<Goc()> Diag;
+inline bool check_retrieval(const std::string &prop, const std::string &site, const InputInfo &in, const Expect &x, const Got &g, const Diag &diagf = Diag()) {
     std::string inst = site + " " + input_str(in) + ": got " + got_str(g) + ", expected " + expect_str(x);
-    auto sig = [&](int d, const std::string &dev) {
-        return prop + "|" + site + "|" + in.entries_class + "; " + axis_input_class(in, d) + "; " + in.mode + "|" + assertion_for(in, d, x) + "|" + dev;
-    };
+    auto sig = [&](int d, const std::string &dev) { return make_sig(prop, site, in, d, assertion_for(in, d, x), dev); };
     const int solo = in.arr->axes.size() == 1 ? 0 : -1;
     if (x.throws) {
         if (g.exc.empty()) { vf::violation(sig(x.culprit, "returned data instead of raising (" + x.why + ")"), inst); return false; }
@@ -502,6 +568,8 @@ inline bool check_retrieval(const std::string &prop, const std::string &site, co
     }
     if (!g.exc.empty()) {
         int d = solo; std::string dev = "raised instead of returning data";
+        Goc dg; const Goc *diag = nullptr;
+        if (diagf) { dg = diagf(); diag = &dg; }
         if (diag && diag->exc.empty()) {
             int dd = first_diff_axis(diag->off, diag->cnt, x);
             if (dd >= 0) { d = dd; dev += "; computed block: " + edge_dev(diag->off[dd], diag->cnt[dd], x.off[dd], x.cnt[dd]); }
@@ -545,13 +613,12 @@ inline bool check_goc(const std::string &prop, const std::string &site, const In
     std::string gs = g.exc.empty() ? "offset " + vs(g.off) + " count " + vs(g.cnt) : g.exc + " (" + g.what + ")";
     std::string want = x.block_defined ? "offset " + vs(x.off) + " count " + vs(x.cnt) : "an error (" + x.why + ")";
     std::string inst = site + " " + input_str(in) + ": got " + gs + ", expected " + want;
-    auto sig = [&](int d, const std::string &as, const std::string &dev) {
-        return prop + "|" + site + "|" + in.entries_class + "; " + axis_input_class(in, d) + "; " + in.mode + "|" + as + "|" + dev;
-    };
+    auto sig = [&](int d, const std::string &as, const std::string &dev) { return make_sig(prop, site, in, d, as, dev); };
     const int solo = in.arr->axes.size() == 1 ? 0 : -1;
     if (!x.block_defined) {
-        if (g.exc.empty()) { vf::violation(sig(x.culprit, "empty region raises an out-of-bounds error", "returned an offset and count instead of raising"), inst); return false; }
-        if (!is_oob(g.exc)) { vf::violation(sig(x.culprit, "empty region raises an out-of-bounds error", "raised an error that is not an out-of-bounds error"), inst); return false; }
+        const std::string as = in.plain ? in.plain_assertion : "empty region raises an out-of-bounds error";
+        if (g.exc.empty()) { vf::violation(sig(x.empty_axis, as, "returned an offset and count instead of raising"), inst); return false; }
+        if (!is_oob(g.exc)) { vf::violation(sig(x.empty_axis, as, "raised an error that is not an out-of-bounds error"), inst); return false; }
         return true;
     }
     if (!x.block_complete) return true; // the region extends past the coordinates kept for the unbounded axis: count not asserted
@@ -587,13 +654,14 @@ static const size_t SHAPES2[][2] = {{5, 3}, {3, 5}, {4, 2}, {2, 4}, {5, 1}, {1, 
 static const size_t SHAPES3[][3] = {{3, 2, 4}, {2, 3, 2}, {4, 2, 3}, {2, 5, 2}, {3, 3, 3}, {5, 2, 1}, {1, 2, 5}};
 
 inline int rot_param(Kind k, int j, int axis) {
-    static const int stride[] = {1, 5, 11};
+    static const int stride[] = {11, 5, 13}; // coprime to every family size (28, 3, 2)
     static const int shift[] = {0, 3, 9};
     return (j * stride[axis] + shift[axis]) % nparams(k);
 }
 
-// The fixed, ordered list of array configurations.  quick is a prefix-style subset of thorough per rank.
-inline std::vector<Config> configurations(bool thorough) {
+// The fixed, ordered list of array configurations (quick: a fixed subset of the kinds and rotations of thorough).
+// max_rot2 / max_rot3 bound the number of parameter rotations per combination of kinds for rank 2 / 3.
+inline std::vector<Config> configurations(bool thorough, int max_rot2, int max_rot3) {
     std::vector<Config> out;
     // rank 1: every parameter set of every kind
     std::vector<size_t> sizes1 = thorough ? std::vector<size_t>{5, 1, 2, 3, 4} : std::vector<size_t>{5, 2};
@@ -607,17 +675,18 @@ inline std::vector<Config> configurations(bool thorough) {
     // rank 2: every pair of kinds; the parameter sets rotate through both slots
     for (int k0 = 0; k0 < 4; k0++) for (int k1 = 0; k1 < 4; k1++) {
         Kind a = static_cast<Kind>(k0), b = static_cast<Kind>(k1);
-        int rots = std::max(nparams(a), nparams(b));
+        int rots = std::min(std::max(nparams(a), nparams(b)), max_rot2);
         if (!thorough) {
             bool chosen = (a == SAMPLED && b == SAMPLED) || (a == SAMPLED && b == RANGE) || (a == RANGE && b == SET) || (a == SET && b == FRAME) || (a == FRAME && b == SAMPLED);
             if (!chosen) continue;
-            rots = std::min(rots, 2);
+            rots = std::min(rots, (a == SAMPLED && b == SAMPLED) ? 2 : 1);
         }
         for (int j = 0; j < rots; j++) {
             Config c; c.label = "rank2";
             AxisSpec s0, s1;
-            s0.kind = a; s0.param = rot_param(a, j, 0); s0.n = SHAPES2[j % 7][0];
-            s1.kind = b; s1.param = rot_param(b, j, 1); s1.n = SHAPES2[j % 7][1];
+            const int jj = j + 3 * (k0 * 4 + k1); // every pair of kinds starts its rotation elsewhere
+            s0.kind = a; s0.param = rot_param(a, jj, 0); s0.n = SHAPES2[j % 7][0];
+            s1.kind = b; s1.param = rot_param(b, jj, 1); s1.n = SHAPES2[j % 7][1];
             c.specs.push_back(s0); c.specs.push_back(s1);
             out.push_back(c);
         }
@@ -626,9 +695,9 @@ inline std::vector<Config> configurations(bool thorough) {
     for (int k0 = 0; k0 < 4; k0++) for (int k1 = 0; k1 < 4; k1++) for (int k2 = 0; k2 < 4; k2++) {
         Kind ks[3] = {static_cast<Kind>(k0), static_cast<Kind>(k1), static_cast<Kind>(k2)};
         bool any_sampled = k0 == SAMPLED || k1 == SAMPLED || k2 == SAMPLED;
-        int rots = any_sampled ? 7 : 3;
+        int rots = std::min(any_sampled ? 7 : 3, max_rot3);
         if (!thorough) {
-            bool chosen = (k0 == SAMPLED && k1 == RANGE && k2 == SET) || (k0 == FRAME && k1 == SAMPLED && k2 == SAMPLED) || (k0 == SET && k1 == FRAME && k2 == RANGE);
+            bool chosen = (k0 == SAMPLED && k1 == RANGE && k2 == SET) || (k0 == FRAME && k1 == SAMPLED && k2 == SAMPLED);
             if (!chosen) continue;
             rots = 1;
         }
